@@ -92,18 +92,24 @@ ALARM_TEXT = {
 # property -> definition
 NOFAULT = {ENV_FAULT, ENV_SLOW, ENV_EXT, ENV_FORCED, ENV_CRASH}
 
-def _mk(fams, codes, env_excl=(), props="Props/Sim.v", gen=()):
-    return dict(fams=fams, codes=set(codes), env_excl=set(env_excl), props=props, gen=list(gen))
+def _mk(fams, codes, env_excl=(), props="Props/Sim.v", gen=(), code_env=None):
+    return dict(fams=fams, codes=set(codes), env_excl=set(env_excl), props=props, gen=list(gen), code_env=code_env or {})
 
 
 SIM = {
     "C01": _mk(["G1", "G2", "G3", "G4", "G7", "G8"], range(101, 110)),
     "C02": _mk(["G1", "G6", "G7", "G5"], [201, 202], NOFAULT | {ENV_TAKEOVER}),
+    "C03": _mk(["G2", "G3", "G8"], range(301, 305)),
+    "C04": _mk(["G3", "G2", "G4"], range(401, 406)),
+    "C06": _mk(["G8", "G1"], [601]),
+    "C11": _mk(["G5", "G7"], range(1101, 1107)),
+    "C12": _mk(["G6"], range(1201, 1206)),
     "C05": _mk(["G1", "G2", "G3", "G4", "G6", "G7"], range(501, 507)),
     "C07": _mk(["G1", "G7"], range(701, 706), NOFAULT | {ENV_TAKEOVER, ENV_CONN, ENV_UNHEALTHY}),
     "C08": _mk(["G1", "G2", "G3", "G5", "G6", "G7"], range(801, 807)),
     "C09": _mk(["G7", "G1", "G5"], range(901, 909)),
-    "C10": _mk(["G4", "G3"], range(1001, 1004)),
+    "C10": _mk(["G4", "G3"], range(1001, 1004),
+               code_env={1002: NOFAULT | {9012, ENV_CONN, ENV_UNHEALTHY}, 1003: NOFAULT | {9012, ENV_CONN, ENV_UNHEALTHY}}),
     "C13": _mk(["G3", "G2"], range(1301, 1306)),
     "C18": _mk(["G1", "G2", "G4", "G6", "G7"], range(1801, 1811)),
     "C19": _mk(["G1", "G2", "G5", "G6", "G7"], range(1901, 1903)),
@@ -131,8 +137,13 @@ def parse_ev(line):
     return int(f[0]), f[1], [int(x) for x in f[2:]]
 
 
+OVERDUE = {301, 302, 303, 304, 601, 1002, 1003, 1102, 1103, 1202, 1203, 1205, 1902}
+
+
 def signature(pid, code, idx, trace):
     """A narrow description of the failing situation: property/code/cause."""
+    if code in OVERDUE:
+        return "%s/%d/overdue" % (pid, code)
     try:
         t, kind, a = parse_ev(trace[idx])
     except Exception:
@@ -227,7 +238,7 @@ def _evaluate(pid, d, res, results, tier):
         applicable = not (env & d["env_excl"])
         if applicable:
             n_applicable += 1
-        hits = [(i, c) for i, c in r["alarms"] if c in d["codes"]]
+        hits = [(i, c) for i, c in r["alarms"] if c in d["codes"] and not (env & d["code_env"].get(c, set()))]
         if r["verdict"] != "ok" and pid in ("C09", "C13", "C11"):
             code = {"C09": 906, "C13": 1304, "C11": 1105}[pid] if r["verdict"] == "crash" else {"C09": 907, "C13": 1305, "C11": 1106}[pid]
             hits.append((max(0, r["n_events"] - 1), code))
